@@ -202,3 +202,20 @@ def evaluate(term, env):
         return max(env[term[1]], env[term[2]])
     if k == 'carry':
         return env[term[1]]
+
+
+# ------------------------------------------------------------------------------------------------ carry sentences
+CARRY = re.compile(r'(?:Enter (?:here|the result here|this amount|the total here|the smaller[^.]*?here|the result) and on|'
+                   r'include (?:this amount|it) on|Also enter (?:this amount )?on)\s+(?:\d{4} )?(Form|Schedule)\s+([\w-]+)[^.]*?line\s+(\d+[a-z]?)', re.I)
+DEST_FORM = {('form', '1040'): '1040', ('schedule', '1'): '1040_s1', ('schedule', '2'): '1040_s2', ('schedule', '3'): '1040_s3',
+             ('schedule', 'a'): '1040_sa', ('schedule', 'b'): '1040_sb'}
+
+
+def carries(text):
+    """'... Enter here and on Form 1040, 1040-SR, or 1040-NR, line 8.' -> [('1040', '8')]"""
+    out = []
+    for m in CARRY.finditer(text):
+        d = DEST_FORM.get((m.group(1).lower(), m.group(2).lower()))
+        if d:
+            out.append((d, m.group(3).lower()))
+    return out
